@@ -49,17 +49,20 @@ static inline std::vector<uint8_t> randomXmi(Rng &r, int songs, int nev)
     std::vector<uint8_t> cat; cat.insert(cat.end(), xm, xm + 4);
     for(int s = 0; s < songs; ++s)
     {
-        std::vector<uint8_t> d; uint32_t tempo = (uint32_t)r.pick<int>({ 250000, 500000, 750000 });
+        std::vector<uint8_t> d; uint32_t tempo = (uint32_t)r.pick<int>({ 250000, 500000, 750000 }); const bool loopy = r.chance(0.3);
         d.push_back(0xFF); d.push_back(0x51); d.push_back(3); d.push_back((uint8_t)(tempo >> 16)); d.push_back((uint8_t)(tempo >> 8)); d.push_back((uint8_t)tempo);
         for(int i = 0; i < nev; ++i)
         {
             uint32_t dl = r.chance(0.3) ? 0 : (uint32_t)r.range(1, 300);
             while(dl > 127) { d.push_back(127); dl -= 127; } if(dl) d.push_back((uint8_t)dl);
             int ch = (int)r.below(16);
-            switch(r.weighted({ 40, 20, 8, 8, 4, 4, 2 }))
+            switch(r.weighted({ 40, loopy ? 45 : 20, 8, 8, 4, 4, 2 }))
             {
             case 0: { d.push_back((uint8_t)(0x90 | ch)); d.push_back((uint8_t)r.below(128)); d.push_back((uint8_t)r.range(1, 127)); uint32_t v = (uint32_t)r.range(1, 2000); uint8_t b[5]; int n = 0; b[n++] = (uint8_t)(v & 0x7F); while((v >>= 7)) b[n++] = (uint8_t)((v & 0x7F) | 0x80); while(n) d.push_back(b[--n]); break; }
-            case 1: d.push_back((uint8_t)(0xB0 | ch)); d.push_back((uint8_t)r.pick<int>({ 0, 1, 7, 10, 11, 64, 114, 116, 117, 119, 32 })); d.push_back((uint8_t)r.below(128)); break;
+            case 1:
+                // AIL loop controllers (116 FOR, 117 NEXT/BREAK: value < 64 leaves the loop) in "loopy" songs: unbalanced and nested on purpose
+                if(loopy && r.chance(0.6)) { bool isFor = r.chance(0.5); d.push_back((uint8_t)(0xB0 | ch)); d.push_back((uint8_t)(isFor ? 116 : 117)); d.push_back((uint8_t)(isFor ? r.pick<int>({ 0, 1, 2, 3, 127 }) : r.pick<int>({ 0, 1, 63, 64, 127 }))); break; }
+                d.push_back((uint8_t)(0xB0 | ch)); d.push_back((uint8_t)r.pick<int>({ 0, 1, 7, 10, 11, 64, 114, 116, 117, 119, 32 })); d.push_back((uint8_t)r.below(128)); break;
             case 2: d.push_back((uint8_t)(0xC0 | ch)); d.push_back((uint8_t)r.below(128)); break;
             case 3: d.push_back((uint8_t)(0xE0 | ch)); d.push_back((uint8_t)r.below(128)); d.push_back((uint8_t)r.below(128)); break;
             case 4: d.push_back((uint8_t)(0xD0 | ch)); d.push_back((uint8_t)r.below(128)); break;
@@ -90,7 +93,15 @@ static inline std::vector<uint8_t> fuzzTrack(Rng &r, int n)
         case 0: t.push_back((uint8_t)r.below(128)); break;
         case 1: t.push_back((uint8_t)(0x80 | r.below(128))); t.push_back((uint8_t)r.below(128)); break;
         case 2: { int k = (int)r.range(3, 5); for(int i = 0; i < k - 1; ++i) t.push_back((uint8_t)(0x80 | r.below(128))); t.push_back((uint8_t)r.below(128)); break; }
-        case 3: { int k = (int)r.range(6, 10); for(int i = 0; i < k - 1; ++i) t.push_back(0xFF); t.push_back(0x7F); break; }  // 64-bit wrapping quantities
+        case 3:   // 64-bit wrapping quantities: all-ones of 6..10 bytes, or exactly 2^64-k / 2^63+-k / a random 64-bit value in 10 groups
+            if(r.chance(0.4)) { int k = (int)r.range(6, 10); for(int i = 0; i < k - 1; ++i) t.push_back(0xFF); t.push_back(0x7F); }
+            else
+            {
+                uint64_t v = r.chance(0.6) ? (uint64_t)0 - (uint64_t)r.range(1, 48) : (r.chance(0.5) ? ((uint64_t)1 << 63) + (uint64_t)r.range(0, 64) - 32 : r.next());
+                for(int g = 9; g >= 1; --g) t.push_back((uint8_t)(0x80 | ((v >> (7 * g)) & 0x7F)));
+                t.push_back((uint8_t)(v & 0x7F));
+            }
+            break;
         default: for(int i = 0; i < 3; ++i) t.push_back(0xFF); break;                                                  // unterminated
         }
     };
